@@ -78,8 +78,20 @@ def seg_dist2(p, a, b):
 
 
 def far_from_ring(p, ring):
+    """generator filter only (floats are enough: anything >= 0.124 away is as good as 1/8)"""
+    px, py = float(p[0]), float(p[1])
     n = len(ring)
-    return all(seg_dist2(p, ring[i], ring[(i + 1) % n]) >= MARGIN2 for i in range(n))
+    rf = ring if isinstance(ring[0][0], float) else [(float(x), float(y)) for x, y in ring]
+    for i in range(n):
+        ax, ay = rf[i]
+        bx_, by_ = rf[(i + 1) % n]
+        dx, dy = bx_ - ax, by_ - ay
+        l2 = dx * dx + dy * dy
+        t = 0.0 if l2 == 0 else max(0.0, min(1.0, ((px - ax) * dx + (py - ay) * dy) / l2))
+        qx, qy = ax + t * dx, ay + t * dy
+        if (px - qx) ** 2 + (py - qy) ** 2 < 0.015624:
+            return False
+    return True
 
 
 def crossing_inside(p, ring):
@@ -126,9 +138,16 @@ def box_inside(bx, k, row):
     return z - h / 2 <= F(row[2]) <= z + h / 2
 
 
+def exact_distance(bx):
+    d2 = sum(F(v) ** 2 for v in bx["pos"])
+    n, d = math.isqrt(d2.numerator), math.isqrt(d2.denominator)
+    if n * n == d2.numerator and d * d == d2.denominator:
+        return F(n, d)
+    return F(math.sqrt(float(d2)))
+
+
 def ideal_scale(bx, s0, s100):
-    d = math.sqrt(sum(float(v) ** 2 for v in bx["pos"]))
-    return F(1, 100) * (F(s100) - F(s0)) * F(d) + F(s0)
+    return F(1, 100) * (F(s100) - F(s0)) * exact_distance(bx) + F(s0)
 
 
 def ring_is_simple(ring):
@@ -171,6 +190,7 @@ def lat(rng, lo, hi):
 def gen_cloud(rng, n, rings, xr, yr, zs, ncols, extra_xy=()):
     """n distinct lattice points in the window, >= 1/8 from every ring in `rings`; z drawn from `zs`"""
     seen, rows = set(), []
+    rings = [[(float(x), float(y)) for x, y in r] for r in rings]
     cand = list(extra_xy)
     tries = 0
     while len(rows) < n and tries < 6 * n + 50:
@@ -183,8 +203,7 @@ def gen_cloud(rng, n, rings, xr, yr, zs, ncols, extra_xy=()):
         key = (x, y, z) if ncols >= 3 else (x, y)
         if key in seen:
             continue
-        p = (F(x), F(y))
-        if not all(far_from_ring(p, r) for r in rings):
+        if not all(far_from_ring((x, y), r) for r in rings):
             continue
         seen.add(key)
         row = [x, y]
@@ -201,6 +220,28 @@ def z_values(zlo, zhi):
     return zs + [(zlo + zhi) / 2] * 6
 
 
+_POS_TABLE = {}
+
+
+def gen_pos(rng, max_xy, max_z):
+    """lattice position (multiples of 1/8) whose distance from the origin is rational (so that the
+    distance-dependent scale factor is an exact small rational and sqrt is exact in binary64)"""
+    key = (max_xy, max_z)
+    if key not in _POS_TABLE:
+        import numpy as np
+
+        n, m = int(max_xy * 8), int(max_z * 8)
+        X, Y, Z = np.meshgrid(np.arange(n + 1), np.arange(n + 1), np.arange(m + 1), indexing="ij")
+        S = X * X + Y * Y + Z * Z
+        R = np.rint(np.sqrt(S)).astype(np.int64)
+        ok = np.argwhere(R * R == S)
+        _POS_TABLE[key] = [tuple(int(v) for v in r) for r in ok]
+    x, y, z = rng.choice(_POS_TABLE[key])
+    if rng.random() < 0.5:
+        x, y = y, x
+    return [rng.choice([-1, 1]) * x / 8.0, rng.choice([-1, 1]) * y / 8.0, rng.choice([-1, 1]) * z / 8.0]
+
+
 def gen_box(rng, kind=None):
     kind = kind or rng.choice(["yaw"] * 8 + ["tilt"])
     if kind == "tilt":
@@ -208,7 +249,7 @@ def gen_box(rng, kind=None):
     else:
         w, z = rng.choice(YAW_WZ)
         quat = [w, 0, 0, z]
-    return {"pos": [lat(rng, -30, 30), lat(rng, -30, 30), lat(rng, -2, 2)],
+    return {"pos": gen_pos(rng, 30, 2),
             "size": [lat(rng, 0.5, 4), lat(rng, 0.5, 8), rng.choice([0.0, 0.25]) if rng.random() < 0.08 else lat(rng, 0.5, 3)],
             "quat": quat}
 
@@ -577,14 +618,16 @@ class BoxCorr(Corr):
         if -1 in obs["ins"] or -1 in obs["outs"]:
             return "false"
         sc = case["scale"]
-        t = (f"check_box {c_box(case['box'])} {qlit(obs['k'])} {c_cloud(case['cloud'])} {llit([c_vertex(v) for v in obs['corners']])} "
-             f"{c_nats(obs['ins'])} {c_nats(obs['outs'])} {obs['num']} {blit(obs['exist'])}")
-        if "s0" in sc:
-            p = case["box"]["pos"]
-            d2 = F(p[0]) ** 2 + F(p[1]) ** 2 + F(p[2]) ** 2
-            t = (f"({t} && Qclose (1 # 1000000000) (bbox_scale {qlit(obs['dist'])} {qlit(sc['s0'])} {qlit(sc['s100'])}) {qlit(obs['k'])}"
-                 f" && Qclose (1 # 1000000) ({qlit(obs['dist'])} * {qlit(obs['dist'])}) {qlit(d2)})")
-        return t
+        if "k" in sc:
+            k = qlit(sc["k"])
+        else:       # the model computes the scale from the (exact, rational) distance itself
+            k = f"(bbox_scale {qlit(obs['dist'])} {qlit(sc['s0'])} {qlit(sc['s100'])})"
+        p = case["box"]["pos"]
+        d2 = F(p[0]) ** 2 + F(p[1]) ** 2 + F(p[2]) ** 2
+        return (f"(check_box {c_box(case['box'])} {k} {c_cloud(case['cloud'])} {llit([c_vertex(v) for v in obs['corners']])} "
+                f"{c_nats(obs['ins'])} {c_nats(obs['outs'])} {obs['num']} {blit(obs['exist'])}"
+                f" && Qclose (1 # 1000000000) {k} {qlit(obs['k'])}"
+                f" && Qclose (1 # 1000000) ({qlit(obs['dist'])} * {qlit(obs['dist'])}) {qlit(d2)})")
 
     def coq_debug(self, case, obs):
         return (f"(box_corners {c_box(case['box'])} {qlit(obs['k'])}, box_crop_idx {c_box(case['box'])} {qlit(obs['k'])} true {c_cloud(case['cloud'])})")
@@ -652,11 +695,12 @@ def gen_scene(rng, n_obj, cfg):
     gts = []
     for _ in range(n_obj):
         g = gen_box(rng)
-        g["pos"] = [lat(rng, -12, 12), lat(rng, -12, 12), lat(rng, -1, 1)]
+        g["pos"] = gen_pos(rng, 12, 1)
         g["vis"] = rng.choice(VIS + ["none", "full"])
         gts.append(g)
     if n_obj >= 2 and rng.random() < 0.3:      # overlapping boxes
-        gts[1]["pos"] = [gts[0]["pos"][0] + 0.5, gts[0]["pos"][1] - 0.25, gts[0]["pos"][2]]
+        gts[1]["pos"] = [gts[0]["pos"][0], gts[0]["pos"][1], -gts[0]["pos"][2]]
+        gts[1]["quat"] = [gts[0]["quat"][0], 0, 0, -gts[0]["quat"][3]] if is_yaw_only(gts[0]["quat"]) else gts[1]["quat"]
     return gts
 
 
